@@ -3,9 +3,11 @@
 Generic walker over vars() with a *blacklist*: a field added by a code change is included by default
 (over-fine, never unsound).  Each dropped field carries its argument in DESIGN.md section 2.1.
 
-Floats are time values.  They are replaced by (tick-round bucket, rank among all time values of the
-state): magnitudes are kept at the granularity the code can observe (thresholds are multiples of 5 s,
-the virtual clock moves by whole rounds plus an epsilon), order is kept exactly.
+Floats are time values.  They are replaced by (half-second bucket, rank among all time values of the
+state): the virtual clock only takes values on a 0.5 s grid plus an epsilon per read (ticks at x+2.5 s,
+restarts 1 s later), thresholds in the code are multiples of 5 s, so durations are never within an
+epsilon of a threshold and two states with equal buckets and ranks take the same branches; order is
+kept exactly.
 """
 import collections
 import enum
@@ -92,7 +94,7 @@ class Canon:
         """Attach bucket and rank of every time value."""
         fl = self.floats
         order = {v: r for r, v in enumerate(sorted(set(fl)))}
-        times = tuple((int(v // 5.0), order[v]) for v in fl)
+        times = tuple((int(v * 2.0), order[v]) for v in fl)
         return structure, times
 
 
